@@ -64,7 +64,8 @@ pub trait ServerMsg: ReadXml {
     {
         tracing::debug!(input = input.as_ref());
         let mut reader = NsReader::from_str(input.as_ref());
-        _ = reader.trim_text(true);
+        // `<x/>` and `<x></x>` are the same element: report both as start + end
+        _ = reader.trim_text(true).expand_empty_elements(true);
         tracing::debug!("expecting <{}>", Self::TAG_NAME);
         let mut this = None;
         loop {
